@@ -31,7 +31,7 @@ ASSUMPTIONS = ["six 1.17 shim", "consonance randint(float) coerced", "alternatio
                "library reconnects from inside the propagation of the deferred DISCONNECTED event, so upper layers see "
                "connected(k+1) before disconnected(k)); accounting is", "disconnect requests are only issued while a "
                "connection is up or being established", "pong timing keeps a margin from the tick (the instant in between is not judged)"]
-BUDGET = {"quick": (1500, 170), "thorough": (20000, 2400)}
+BUDGET = {"quick": (1500, 170), "thorough": (80000, 2700)}
 FAULTS = ["connect_refused", "peer_fin", "rst", "srv_no_pong", "srv_late_pong", "stream_error", "login_failure", "tcp_cut"]
 PROBES = ["write_raced_with_close_by_other_thread", "failure_or_stream_error_crossed_client_close", "auto_reconnect_after_stream_error", "no_reconnect_after_conflict", "no_reconnect_option_off", "ping_timeout_disconnect",
           "pings_all_answered_no_disconnect", "passive_key_upload_reboot", "failure_closes_connection", "socket_dispatcher",
